@@ -97,8 +97,8 @@ def reData : Text → Option Text
   | [] => none
   | c :: s =>
     if c == '[' then
-      match s.span dataClass with
-      | (g, ']' :: _) => some g
+      match s.dropWhile dataClass with
+      | ']' :: _ => some (s.takeWhile dataClass)
       | _ => reData s
     else reData s
 
@@ -143,5 +143,436 @@ def parseBlockL (line : Text) : Option (List Byte) :=
   | .bytes bs => some bs
   | _ => none
 def parseBlock (s : String) : Option (List Byte) := parseBlockL s.toList
+
+/-! ## the regular expressions of `GeckoSnapshot._funcs`
+
+Every expression of the table is a flat sequence of literals, single classes and greedy class runs (`\d+`, `\w+`, `.*`,
+`[..]*`), each capture group being exactly one run (for `(STATV.*)` the handler re-attaches the literal).  `matchSeq` is a
+backtracking matcher for such sequences: a run first takes the longest stretch and gives characters back one at a time.
+`searchRe` is `re.search`: the leftmost start position that matches. -/
+
+macro:max "t!" s:str : term => do
+  let elems : Array (Lean.TSyntax `term) := s.getString.toList.toArray.map fun c => Lean.Syntax.mkCharLit c
+  `(([$elems,*] : List Char))
+
+inductive Atom
+  | lit (l : Text)                       -- literal text
+  | one (p : Char → Bool)                -- one character of a class (not captured)
+  | cap (p : Char → Bool) (min : Nat)    -- captured greedy run `(p{min,})`
+
+/-- `if t.startswith(l): t[len(l):]` -/
+def stripPrefix (l t : Text) : Option Text := if l.isPrefixOf t then some (t.drop l.length) else none
+
+/-- length of the maximal run of `p` at the head -/
+def runLen (p : Char → Bool) : Text → Nat
+  | [] => 0
+  | c :: s => if p c then runLen p s + 1 else 0
+
+/-- try run lengths `j, j-1, .., min` (greedy with backtracking); `k` is the rest of the expression -/
+def tryLens (k : Text → Option (List Text)) (s : Text) (min : Nat) : Nat → Option (List Text)
+  | 0 => if min = 0 then (match k s with | some gs => some ([] :: gs) | none => none) else none
+  | j + 1 =>
+    if j + 1 < min then none
+    else match k (s.drop (j + 1)) with
+      | some gs => some (s.take (j + 1) :: gs)
+      | none => tryLens k s min j
+
+def matchSeq : List Atom → Text → Option (List Text)
+  | [], _ => some []
+  | .lit l :: r, s =>
+    match stripPrefix l s with
+    | some s' => matchSeq r s'
+    | none => none
+  | .one p :: r, s =>
+    match s with
+    | c :: s' => if p c then matchSeq r s' else none
+    | [] => none
+  | .cap p m :: r, s => tryLens (matchSeq r) s m (runLen p s)
+
+/-- `re.search(re, s, re.DOTALL)`: groups of the leftmost match -/
+def searchRe (re : List Atom) : Text → Option (List Text)
+  | [] => matchSeq re []
+  | c :: s =>
+    match matchSeq re (c :: s) with
+    | some g => some g
+    | none => searchRe re s
+
+/-- Python `l in t` for strings -/
+def hasSub (l t : Text) : Bool := (searchRe [.lit l] t).isSome
+
+def anyChar (_ : Char) : Bool := true
+
+/-- the expression texts, in table order, exactly as in the source (pinned against `Generated.SnapshotSrc`) -/
+def regexTexts : List String := [
+  "(\\d+-\\d+-\\d+\\s+\\d+:\\d+:\\d+).*Snapshot \\((.*)\\)",
+  "Snapshot \\((.*)\\)",
+  "Spa pack (.*) (\\d+) v(\\d+)\\.(\\d+)",
+  "intouch version EN (\\d+) v(\\d+)\\.(\\d+)",
+  "intouch version CO (\\d+) v(\\d+)\\.(\\d+)",
+  "Config version (\\d+)",
+  "Log version (\\d+)",
+  "\\[([0-9A-Fa-fx\\\\' ,]*)\\]",
+  "PackType adjusted data = (\\w+)",
+  "PackConfID @ 297, Word raw data = (\\d+)",
+  "PackConfRev @ 299, Byte raw data = (\\d+)",
+  "PackConfRel @ 300, Byte raw data = (\\d+)",
+  "Got software version (\\d+) v(\\d+).(\\d+)/(\\d+) v(\\d+).(\\d+)",
+  "Got spa configuration Type (\\d+) - CFG (\\d+)/LOG (\\d+)",
+  "(STATV.*)</DATAS>"]
+
+/-- the handler names, in table order -/
+def regexHandlers : List String := [
+  "_re_snapshot", "_re_snapshot_alt", "_re_spa_pack", "_re_intouch_en", "_re_intouch_co", "_re_config_version",
+  "_re_log_version", "_re_data", "_re_spa_pack_type", "_re_spa_pack_id", "_re_spa_pack_rev", "_re_spa_pack_rel",
+  "_re_software_version", "_re_config_and_log", "_re_data_segment"]
+
+/- R1 `(\d+-\d+-\d+\s+\d+:\d+:\d+).*Snapshot \((.*)\)` is not evaluated by the model: it sets `_timestamp` (not part of the
+   model state) and `_name`; whenever it matches, R2 (a suffix of it) matches the same line and, being later in the table,
+   overwrites `_name`.  R8 is `reData` above. -/
+def reSnapshotAlt : List Atom := [.lit t!"Snapshot (", .cap anyChar 0, .lit t!")"]
+def reSpaPack : List Atom :=
+  [.lit t!"Spa pack ", .cap anyChar 0, .lit t!" ", .cap isDigit 1, .lit t!" v", .cap isDigit 1, .lit t!".", .cap isDigit 1]
+def reIntouchEN : List Atom := [.lit t!"intouch version EN ", .cap isDigit 1, .lit t!" v", .cap isDigit 1, .lit t!".", .cap isDigit 1]
+def reIntouchCO : List Atom := [.lit t!"intouch version CO ", .cap isDigit 1, .lit t!" v", .cap isDigit 1, .lit t!".", .cap isDigit 1]
+def reConfigVersion : List Atom := [.lit t!"Config version ", .cap isDigit 1]
+def reLogVersion : List Atom := [.lit t!"Log version ", .cap isDigit 1]
+def rePackType : List Atom := [.lit t!"PackType adjusted data = ", .cap isWord 1]
+def rePackId : List Atom := [.lit t!"PackConfID @ 297, Word raw data = ", .cap isDigit 1]
+def rePackRev : List Atom := [.lit t!"PackConfRev @ 299, Byte raw data = ", .cap isDigit 1]
+def rePackRel : List Atom := [.lit t!"PackConfRel @ 300, Byte raw data = ", .cap isDigit 1]
+def reSoftware : List Atom :=
+  [.lit t!"Got software version ", .cap isDigit 1, .lit t!" v", .cap isDigit 1, .one anyChar, .cap isDigit 1, .lit t!"/",
+   .cap isDigit 1, .lit t!" v", .cap isDigit 1, .one anyChar, .cap isDigit 1]
+def reConfigAndLog : List Atom :=
+  [.lit t!"Got spa configuration Type ", .cap isDigit 1, .lit t!" - CFG ", .cap isDigit 1, .lit t!"/LOG ", .cap isDigit 1]
+/-- `(STATV.*)</DATAS>`; the handler gets `STATV ++ group` -/
+def reStatv : List Atom := [.lit t!"STATV", .cap anyChar 0, .lit t!"</DATAS>"]
+
+/-! ## CPython `bytes.__repr__`, the quote replacement and `ast.literal_eval` of a bytes literal -/
+
+def sq : Char := '\''
+def dq : Char := '"'
+def bsl : Char := '\\'
+
+/-- quote chosen by `bytes.__repr__`: `"` iff the bytes contain `'` and no `"` -/
+def quoteOf (bs : List Byte) : Char := if bs.contains 0x27 && !bs.contains 0x22 then dq else sq
+
+/-- rendering of one byte inside a literal delimited by `q` -/
+def escByte (q : Char) (b : Byte) : Text :=
+  if b.toNat = q.toNat ∨ b = 0x5c then [bsl, Char.ofNat b.toNat]
+  else if b = 0x09 then [bsl, 't']
+  else if b = 0x0a then [bsl, 'n']
+  else if b = 0x0d then [bsl, 'r']
+  else if b.toNat < 0x20 ∨ 0x7f ≤ b.toNat then [bsl, 'x', hexChar (b.toNat / 16), hexChar b.toNat]
+  else [Char.ofNat b.toNat]
+
+def escBytes (q : Char) (bs : List Byte) : Text := bs.flatMap (escByte q)
+
+/-- `repr(bs)` = `str(bs)` = what `"%s" % bs` logs -/
+def pyReprBytesL (bs : List Byte) : Text := 'b' :: quoteOf bs :: escBytes (quoteOf bs) bs ++ [quoteOf bs]
+def pyReprBytes (bs : List Byte) : String := String.ofList (pyReprBytesL bs)
+
+/-- `data.replace("'", "\\x27")` of `_re_data_segment` -/
+def fixQuotes : Text → Text
+  | [] => []
+  | c :: s => if c == sq then bsl :: 'x' :: '2' :: '7' :: fixQuotes s else c :: fixQuotes s
+
+instance {ε α} [DecidableEq ε] [DecidableEq α] : DecidableEq (Except ε α) := fun a b =>
+  match a, b with
+  | .ok x, .ok y => if h : x = y then isTrue (by rw [h]) else isFalse (by intro e; cases e; exact h rfl)
+  | .error x, .error y => if h : x = y then isTrue (by rw [h]) else isFalse (by intro e; cases e; exact h rfl)
+  | .ok _, .error _ => isFalse (by intro e; cases e)
+  | .error _, .ok _ => isFalse (by intro e; cases e)
+
+inductive PErr
+  | valueError      -- `_re_data`: int('..', 16) / bytearray range
+  | syntaxError     -- `ast.literal_eval`: malformed literal
+  | structError     -- `struct.unpack(">BBB", ..)` on fewer than 3 bytes
+  | outOfModel      -- literal syntax the model does not cover (octal / \a \b \f \v escapes, raw control or non-ASCII characters)
+deriving Repr, DecidableEq
+
+/-- body of a bytes literal `b'<body>'` (the body is what stands between the quotes), for the escapes `bytes.__repr__`
+produces plus `\"`; unknown escapes and raw control / non-ASCII characters are out of the model -/
+def litEval : Text → Except PErr (List Byte)
+  | [] => .ok []
+  | c :: s =>
+    if c == bsl then
+      match s with
+      | [] => .error .syntaxError                      -- the backslash would escape the closing quote
+      | e :: s' =>
+        if e == bsl || e == sq || e == dq then (litEval s').map (UInt8.ofNat e.toNat :: ·)
+        else if e == 't' then (litEval s').map (0x09 :: ·)
+        else if e == 'n' then (litEval s').map (0x0a :: ·)
+        else if e == 'r' then (litEval s').map (0x0d :: ·)
+        else if e == 'x' then
+          match s' with
+          | h :: l :: s'' =>
+            match hexVal h, hexVal l with
+            | some a, some b => (litEval s'').map (UInt8.ofNat (a * 16 + b) :: ·)
+            | _, _ => .error .syntaxError
+          | _ => .error .syntaxError
+        else .error .outOfModel
+    else if c == sq then .error .syntaxError           -- would close the literal early
+    else if decide (0x20 ≤ c.toNat) && decide (c.toNat ≤ 0x7e) then (litEval s).map (UInt8.ofNat c.toNat :: ·)
+    else .error .outOfModel
+
+/-! ## the STATV decoder (`GeckoStatusBlockProtocolHandler.handle`) and `_re_data_segment` -/
+
+structure Statv where
+  seq : Byte
+  next : Byte
+  data : List Byte
+deriving Repr, DecidableEq
+
+/-- `handle(bytes_)` for bytes starting with STATV: `struct.unpack(">BBB", rem[0:3])`, `data = rem[3:length+3]` -/
+def statvDecode (bs : List Byte) : Except PErr Statv :=
+  match bs.drop 5 with
+  | a :: b :: c :: rest => .ok ⟨a, b, rest.take c.toNat⟩
+  | _ => .error .structError
+
+def statvBytes : List Byte := [0x53, 0x54, 0x41, 0x54, 0x56]
+
+/-- the STATV datagram content built by `GeckoStatusBlockProtocolHandler.response(index, next, block)` -/
+def statvContent (idx next : Byte) (data : List Byte) : List Byte :=
+  statvBytes ++ idx :: next :: UInt8.ofNat data.length :: data
+
+/-! ## snapshot state, the handlers, one line, a whole file -/
+
+structure Snap where
+  name : Option Text := none
+  packType : Option Text := none
+  confId : Option Text := none
+  confRev : Option Text := none
+  confRel : Option Text := none
+  en : List Text := []
+  co : List Text := []
+  cfg : Option Text := none
+  log : Option Text := none
+  bytes : List Byte := []
+  segs : List (List Byte) := []
+deriving Repr, DecidableEq
+
+/-- apply a handler when its expression matches -/
+def fire (re : List Atom) (line : Text) (f : Snap → List Text → Snap) (s : Snap) : Snap :=
+  match searchRe re line with
+  | some gs => f s gs
+  | none => s
+
+def hSnapshotAlt (s : Snap) : List Text → Snap
+  | [n] => { s with name := some n } | _ => s
+def hSpaPack (s : Snap) : List Text → Snap
+  | [a, b, c, d] => { s with packType := some a, confId := some b, confRev := some c, confRel := some d } | _ => s
+def hEN (s : Snap) (g : List Text) : Snap := { s with en := g }
+def hCO (s : Snap) (g : List Text) : Snap := { s with co := g }
+def hCfg (s : Snap) : List Text → Snap
+  | [a] => { s with cfg := some a } | _ => s
+def hLog (s : Snap) : List Text → Snap
+  | [a] => { s with log := some a } | _ => s
+def hPackType (s : Snap) : List Text → Snap
+  | [a] => { s with packType := some a } | _ => s
+/-- `f"{int(hex_id, 16)}"` on a digit string -/
+def hPackId (s : Snap) : List Text → Snap
+  | [a] => { s with confId := (hexFold a).map natToDec } | _ => s
+def hPackRev (s : Snap) : List Text → Snap
+  | [a] => { s with confRev := some a } | _ => s
+def hPackRel (s : Snap) : List Text → Snap
+  | [a] => { s with confRel := some a } | _ => s
+def hSoftware (s : Snap) : List Text → Snap
+  | [a, b, c, d, e, f] => { s with en := [a, b, c], co := [d, e, f] } | _ => s
+def hConfigAndLog (s : Snap) : List Text → Snap
+  | [_, b, c] => { s with cfg := some b, log := some c } | _ => s
+
+def hData (line : Text) (s : Snap) : Except PErr Snap :=
+  match dataLine line with
+  | .noMatch => .ok s
+  | .raises => .error .valueError
+  | .bytes bs => .ok { s with bytes := bs }
+
+/-- `_re_data_segment` -/
+def hSegment (line : Text) (s : Snap) : Except PErr Snap :=
+  match searchRe reStatv line with
+  | some [g] =>
+    match litEval (fixQuotes (t!"STATV" ++ g)) with
+    | .error e => .error e
+    | .ok bs =>
+      match statvDecode bs with
+      | .error e => .error e
+      | .ok v =>
+        let segs := s.segs ++ [v.data]
+        .ok (if v.next = 0 then { s with segs := segs, bytes := segs.flatten } else { s with segs := segs })
+  | _ => .ok s
+
+/-- `GeckoSnapshot.parse(line)`: all handlers in table order; an exception leaves through `parse` -/
+def parseLine (s : Snap) (line : Text) : Except PErr Snap :=
+  let s := fire reSnapshotAlt line hSnapshotAlt s
+  let s := fire reSpaPack line hSpaPack s
+  let s := fire reIntouchEN line hEN s
+  let s := fire reIntouchCO line hCO s
+  let s := fire reConfigVersion line hCfg s
+  let s := fire reLogVersion line hLog s
+  match hData line s with
+  | .error e => .error e
+  | .ok s =>
+    let s := fire rePackType line hPackType s
+    let s := fire rePackId line hPackId s
+    let s := fire rePackRev line hPackRev s
+    let s := fire rePackRel line hPackRel s
+    let s := fire reSoftware line hSoftware s
+    let s := fire reConfigAndLog line hConfigAndLog s
+    hSegment line s
+
+/-- loop state of `parse_log_file` -/
+structure FileSt where
+  done : List Snap := []          -- `snapshots`
+  snap : Option Snap := none      -- `snapshot`
+  conn : Option Snap := none      -- `connection`
+
+def connInit : Snap := { name := some t!"Connection found" }
+
+/-- one iteration of the `for line in f` loop -/
+def fileStep (st : FileSt) (line : Text) : Except PErr FileSt := do
+  let snap := if hasSub t!"Snapshot" line then some ({} : Snap) else st.snap
+  let (done, snap) ← match snap with
+    | some s =>
+      if hasSub t!"INFO" line then
+        match parseLine s line with
+        | .ok s' => pure (st.done, some s')
+        | .error e => throw e
+      else pure (st.done ++ [s], none)
+    | none => pure (st.done, none)
+  let conn := if hasSub t!"Starting spa connection handshake..." line then some connInit else st.conn
+  match conn with
+  | some c =>
+    match parseLine c line with
+    | .error e => throw e
+    | .ok c' =>
+      if hasSub t!"Spa is connected" line then pure { done := done ++ [c'], snap := snap, conn := none }
+      else pure { done := done, snap := snap, conn := some c' }
+  | none => pure { done := done, snap := snap, conn := none }
+
+def fileLoop : FileSt → List Text → Except PErr FileSt
+  | st, [] => .ok st
+  | st, l :: ls => match fileStep st l with
+    | .ok st' => fileLoop st' ls
+    | .error e => .error e
+
+/-- `GeckoSnapshot.parse_log_file` on the lines of the file (each with its line end) -/
+def parseLogFile (lines : List Text) : Except PErr (List Snap) :=
+  match fileLoop {} lines with
+  | .error e => .error e
+  | .ok st =>
+    let d := match st.snap with | some s => st.done ++ [s] | none => st.done
+    .ok (match st.conn with | some c => d ++ [c] | none => d)
+
+/-! ## the writer: `GeckoShell.do_snapshot` through the file logger -/
+
+/-- `" geckolib.utils.shell INFO "`: what stands between `%(asctime)s` and the message for the shell's logger -/
+def shellTag : Text := t!" geckolib.utils.shell INFO "
+
+/-- characters of `%(asctime)s` (`2020-12-08 19:53:28,310`) -/
+def stampChar (c : Char) : Bool := isDigit c || c == '-' || c == ':' || c == ',' || c == ' '
+
+/-- the version header as the shell holds it -/
+structure Header where
+  libVersion : Text      -- geckolib VERSION           (digits and dots)
+  revision : Text        -- SpaPackStruct.xml revision  (digits and dots)
+  enB : Nat
+  enMaj : Nat
+  enMin : Nat
+  coB : Nat
+  coMaj : Nat
+  coMin : Nat
+  pack : Text            -- label of the PackType item
+  confId : Nat
+  confRev : Nat
+  confRel : Nat
+  configNumber : Nat
+  cfg : Nat
+  log : Nat
+  packTypeNo : Nat
+
+def verChar (c : Char) : Bool := isDigit c || c == '.'
+
+/-- message texts of `version_strings`, in order -/
+def versionMessages (h : Header) : List Text := [
+  t!"geckolib version " ++ h.libVersion,
+  t!"SpaPackStruct.xml revision " ++ h.revision,
+  t!"intouch version EN " ++ (natToDec h.enB ++ (t!" v" ++ (natToDec h.enMaj ++ ('.' :: natToDec h.enMin)))),
+  t!"intouch version CO " ++ (natToDec h.coB ++ (t!" v" ++ (natToDec h.coMaj ++ ('.' :: natToDec h.coMin)))),
+  t!"Spa pack " ++ (h.pack ++ (' ' :: (natToDec h.confId ++ (t!" v" ++ (natToDec h.confRev ++ ('.' :: natToDec h.confRel)))))),
+  t!"Low level configuration # " ++ natToDec h.configNumber,
+  t!"Config version " ++ natToDec h.cfg,
+  t!"Log version " ++ natToDec h.log,
+  t!"Pack type " ++ natToDec h.packTypeNo]
+
+/-- one record of the log file -/
+def logLine (stamp msg : Text) : Text := stamp ++ (shellTag ++ (msg ++ ['\n']))
+
+/-- the lines `do_snapshot(name)` appends to the log file (all records carry a time stamp; they may differ) -/
+def writeSnapshot (stamps : List Text) (name : Text) (h : Header) (bs : List Byte) : List Text :=
+  let msgs := (t!"Snapshot (" ++ (name ++ [')'])) :: versionMessages h ++ [renderBlockL bs]
+  List.zipWith logLine stamps msgs
+
+def renderVersions (stamp : Text) (h : Header) : List Text := (versionMessages h).map (logLine stamp)
+
+/-- the parsed header as the `GeckoSnapshot` properties expose it (`int(..)` of the stored strings) -/
+structure Parsed where
+  name : Option Text
+  packType : Option Text
+  confId : Option Nat
+  confRev : Option Nat
+  confRel : Option Nat
+  en : List (Option Nat)
+  co : List (Option Nat)
+  cfg : Option Nat
+  log : Option Nat
+  bytes : List Byte
+deriving Repr, DecidableEq
+
+def Snap.view (s : Snap) : Parsed :=
+  { name := s.name, packType := s.packType, confId := s.confId.bind decToNat, confRev := s.confRev.bind decToNat,
+    confRel := s.confRel.bind decToNat, en := s.en.map decToNat, co := s.co.map decToNat,
+    cfg := s.cfg.bind decToNat, log := s.log.bind decToNat, bytes := s.bytes }
+
+def Header.expected (h : Header) (name : Text) (bs : List Byte) : Parsed :=
+  { name := some name, packType := some h.pack, confId := some h.confId, confRev := some h.confRev, confRel := some h.confRel,
+    en := [some h.enB, some h.enMaj, some h.enMin], co := [some h.coB, some h.coMaj, some h.coMin],
+    cfg := some h.cfg, log := some h.log, bytes := bs }
+
+/-- `parseVersions`: the header lines run through a fresh `GeckoSnapshot` -/
+def parseLines (s : Snap) : List Text → Except PErr Snap
+  | [] => .ok s
+  | l :: ls => match parseLine s l with
+    | .ok s' => parseLines s' ls
+    | .error e => .error e
+
+def parseVersions (lines : List Text) : Except PErr Parsed := (parseLines {} lines).map Snap.view
+
+/-! ## traffic logs: `"Received %s from %s"` records of STATV packets and their reassembly -/
+
+structure Seg where
+  idx : Byte
+  next : Byte
+  data : List Byte
+
+/-- `<PACKT><SRCCN>src</SRCCN><DESCN>dst</DESCN><DATAS>` as bytes -/
+def asciiBytes (t : Text) : List Byte := t.map fun c => UInt8.ofNat c.toNat
+def packetOpen (src dst : List Byte) : List Byte :=
+  asciiBytes t!"<PACKT><SRCCN>" ++ src ++ asciiBytes t!"</SRCCN><DESCN>" ++ dst ++ asciiBytes t!"</DESCN><DATAS>"
+def packetClose : List Byte := asciiBytes t!"</DATAS></PACKT>"
+def packet (src dst : List Byte) (sg : Seg) : List Byte :=
+  packetOpen src dst ++ (statvContent sg.idx sg.next sg.data ++ packetClose)
+
+/-- one `Received b'<PACKT>..' from (..)` record: `pre` is everything before the repr, `post` everything after -/
+def trafficLine (pre post : Text) (pkt : List Byte) : Text := pre ++ (pyReprBytesL pkt ++ post)
+
+/-- the connection branch of the parser on the records of one transfer: the block it ends with -/
+def reassemble (lines : List Text) : Except PErr (List Byte) := (parseLines connInit lines).map (·.bytes)
+
+/-- an in-order chain over a split of the transferred range: idx = 0,1,2.., next = idx+1, the last one 0 -/
+def chainFrom (i : Nat) : List (List Byte) → List Seg
+  | [] => []
+  | [d] => [⟨UInt8.ofNat i, 0, d⟩]
+  | d :: d' :: ds => ⟨UInt8.ofNat i, UInt8.ofNat (i + 1), d⟩ :: chainFrom (i + 1) (d' :: ds)
 
 end GeckoModel.Snapshot
